@@ -10,6 +10,30 @@ CLAIMED = {
          "Exploration: every result of seeded random operation sequences on the three real backends is compared online with a reference map-with-expiry; evidence lists op counts and the (op,state) pairs covered. Held on what was observed, not for all sequences.",
          "Wall clock not stepped; TTL margins >=0.5s separate fresh/expired; the reference model (c07_seqmodel.go) is the trusted oracle.",
          "2/C07"),
+ "C10": ("runtime monitor with wall-clock bracketing: expiry read back through Walk/ErrWithExpiredItem vs. documented TTL interval",
+         "Exploration: seeded writes over TTL magnitudes 1ns..100y (both signs), all jitter settings and the three backends; each stored expiry is checked against the documented interval using clock readings taken around the Write, reads on either side of the expiry are checked, and jitter distribution blocks check two-sidedness and width.",
+         "Wall clock not stepped; eps = 2ns + |T|*2^-52 for float rounding; distribution thresholds have negligible false-alarm probability (<1e-90).",
+         "2/C10"),
+ "C11": ("runtime monitor on the real janitor goroutine, paused between cycles at its EvictionNeeded call-out, vs. reference model of survivors",
+         "Exploration: the real janitor (1ms interval) is stepped cycle by cycle; after each cycle Len/Walk/Read are compared with a model in which exactly the entries expired more than DeleteExpiredAfter ago disappear. Covers finite and Unlimited TimeToLive (including late first per-call TTL) on the three backends.",
+         "Gate relies on the janitor consulting EvictionNeeded once per cycle when no limit is breached (true for the code under test; a watchdog turns a missing call-out into inconclusive). TTL class margins >=1s vs. a 1h boundary.",
+         "2/C11"),
+ "C12": ("runtime monitor on the real janitor goroutine gated at EvictionNeeded / Stats.Add(cache_evict); amount, metric and rank-order oracle",
+         "Exploration: seeded (limit, size, fraction, strategy, trigger, access history) cases; exactly one eviction cycle is let through and judged for trigger, amount (within one entry), cache_evict metric and strategy order (max rank removed <= min rank kept, ties free).",
+         "Harness-side rank bookkeeping (expiry from a pre-eviction Walk, last-read order with a strictly advancing clock, read counts) is the trusted oracle; only fresh entries are read so 'served' is unambiguous.",
+         "2/C12"),
+ "C13": ("differential runtime monitor: Walk/Read of restored caches vs. source across all backend pairings and relay chains",
+         "Exploration: seeded entry sets (0..400, hostile keys, nil/zero/populated registered values, with/without expiry) are dumped and restored across every pairing and relayed 1..4 times; every relay must equal the source; truncated streams must yield a subset.",
+         "reflect.DeepEqual over a value alphabet chosen to avoid gob's nil-vs-empty ambiguity is the equality; gob itself is trusted.",
+         "2/C13"),
+ "C15": ("reference-model monitor with complete deleter-fault enumeration per scenario, plus concurrent stress with conservation oracle",
+         "Fault enumeration inside exploration: each seeded incidence structure is rebuilt and run fault-free and once per delete position with an injected failure at that position, followed by recovery and retry; completeness, precision, returned count (vs. measured removals), error identity and no-panic are judged. Concurrent AddLabels/AddCache/Invalidate runs are judged at quiescence (nothing labelled survives; counts add up).",
+         "Index model in c15_labels.go is the oracle; labels consumed by a successful invalidation are not re-applied by the workloads.",
+         "2/C15"),
+ "C17": ("offline checker over callback log and caller timestamps (ordering, exactly-once, non-overlap, sound monotonic-clock bracketing)",
+         "Exploration: seeded bursts and sequences of 1..32 callers, 0..5 callbacks, several SkipIntervals; accepted calls run all callbacks once in order, rejected run none, groups never interleave, consecutive accepted calls are >= SkipInterval apart (bracketing inequality), and a call that begins >= SkipInterval after every earlier call returned must be accepted.",
+         "Only bracketing inequalities on the monotonic clock are used, so load cannot cause false alarms (it only reduces detection power).",
+         "2/C17"),
 }
 
 NOT_YET = "check not built yet in this round (planned, see DESIGN.md section 2)"
